@@ -113,6 +113,15 @@ def run_config(ir, cfg):
         sig = dict(ctx)
         sig.update(field="names_in_text", expected="every parameter named", observed="names not emitted")
         return [dict(sig=sig, expected=list(ir["params"]), observed="missing from text: %r" % missing, detail=text)], "names-not-emitted"
+    if cfg["style"] == "google":
+        # second root-cause clause: continuation lines of a multi-line description must be indented under their parameter, otherwise the
+        # Google reader takes them for prose and everything after them is misread (one violation instead of a dozen consequential ones)
+        cont = [l for p in ir["params"].values() for l in (p.get("doc") or "").split("\n")[1:] if l.strip()]
+        flush = [l for l in cont if _re.search(r"^%s" % _re.escape(l.strip()), text, _re.M)]
+        if flush:
+            sig = dict(ctx)
+            sig.update(field="continuation_indent", expected="continuation lines indented", observed="continuation line at column 0")
+            return [dict(sig=sig, expected="indented continuation of a multi-line description", observed=flush[0], detail=text)], "continuation-unindented"
     try:
         back = cdd.docstring.parse.docstring(text, emit_default_doc=cfg["emit_default_doc"])
     except Exception as e:
